@@ -6,6 +6,7 @@ from hypothesis import strategies as st
 from .. import gen
 from ..core import HarnessError
 from ..scenario import Fail, Play, play_case
+from .c10 import values_for
 
 PROPERTY = "C13"
 LEVEL = "exploration"
@@ -15,7 +16,7 @@ RULE = (
     "bind_events_as_methods; with args/kwargs. Oracle: every style gives the reference interpreter's result/exception/state/callback log; after "
     "every step allowed_events == events of the transitions leaving the current state, once each, in declaration order, and events == the "
     "declared set without duplicates. Name fuzzing: every name in dir(machine) (methods, properties, dunders, state ids, private attributes) "
-    "plus generated text that is not a declared event is sent: it must raise TransitionNotAllowed (or return None when tolerated) and leave an "
+    "plus generated text and near-misses of the declared names (padded with whitespace, other case, truncated) that are not declared events are sent: it must raise TransitionNotAllowed (or return None when tolerated) and leave an "
     "identical observable snapshot (state, model __dict__, repr, recorder length) - nothing else was invoked. "
     "non-trivial = a step using a non-send style, or a fuzzed name that is an attribute of the machine"
 )
@@ -148,7 +149,8 @@ class P(Play):
             await self.op_activate({})
         sm = ctx.sm
         declared = {str(e) for e in sm.events}
-        names = [n for n in dir(sm) if n not in declared] + [n for n in self.case.get("fuzz_names", []) if n not in declared]
+        padded = [v for e in sorted(declared) for v in (" " + e, e + " ", e + "\n", "\t" + e, e.upper(), e + "_", e[:-1])]
+        names = [n for n in dir(sm) if n not in declared] + [n for n in list(self.case.get("fuzz_names", [])) + padded if n not in declared]
         n_attr = 0
         for name in names:
             before = self.snapshot(ctx)
@@ -182,6 +184,11 @@ def cases(draw, tier):
     provs = draw(st.sampled_from([("machine",), ("machine", "model"), ("machine", "model", "l0")])) if not mixin else draw(st.sampled_from([("machine",), ("machine", "model")]))
     async_mode = "none" if mixin else draw(st.sampled_from(["none", "none", "all", "mixed"]))
     spec = draw(gen.machine_spec(max_states=5, providers=provs, async_mode=async_mode, sends=draw(st.sampled_from([False, False, True]))))
+    kind = draw(st.sampled_from(["ids", "ids", "int", "mixed", "enum", "intenum"]))
+    vals = values_for(kind, len(spec["states"]), draw)
+    if vals is not None:  # allowed_events / events must not depend on the kind of value a state stores (falsy ones included)
+        for s_, v in zip(spec["states"], vals):
+            s_["value"] = v
     is_async = gen.is_async_spec(spec)
     if mixin:
         cfg = {"rtc": True, "allow": False, "driver": "sync", "activate": False, "mixin": True}
